@@ -462,7 +462,7 @@ func c11Encode(toks []c11Tok) (tables [][]byte, err error) {
 
 // ---------------------------------------------------------------------------------- running the real parser
 
-func c11Parse(tables [][]byte) (tree *ObjectTree, res string, msg string) {
+func c11Parse(tables [][]byte) (tree *ObjectTree, res string, msg string, passes []int) {
 	tree = NewObjectTree()
 	tree.CreateDefaultScopes(0)
 	var errb bytes.Buffer
@@ -481,11 +481,13 @@ func c11Parse(tables [][]byte) (tree *ObjectTree, res string, msg string) {
 		header.Signature = [4]byte{'D', 'S', 'D', 'T'}
 		header.Length = uint32(len(stream))
 		header.Revision = 2
-		if err := p.ParseAML(uint8(i+1), "T"+strconv.Itoa(i+1), header); err != nil {
-			return tree, "error", strings.TrimSpace(errb.String())
+		err := p.ParseAML(uint8(i+1), "T"+strconv.Itoa(i+1), header)
+		passes = append(passes, int(p.resolvePasses)) // merge/relocate passes the parser took (evidence only)
+		if err != nil {
+			return tree, "error", strings.TrimSpace(errb.String()), passes
 		}
 	}
-	return tree, "ok", ""
+	return tree, "ok", "", passes
 }
 
 // ---------------------------------------------------------------------------------- projection (trusted, no expected results)
@@ -504,6 +506,7 @@ type c11Call struct {
 type c11Obs struct {
 	Res   string     `json:"res"`
 	Err   string     `json:"err"`
+	Pass  []int      `json:"passes"`
 	NS    []c11Entry `json:"ns"`
 	Calls []c11Call  `json:"calls"`
 }
@@ -735,8 +738,11 @@ func c11RunOne(toks []c11Tok) c11Obs {
 	if err != nil {
 		return c11Obs{Res: "bad-input", Err: err.Error(), NS: []c11Entry{}, Calls: []c11Call{}}
 	}
-	tree, res, msg := c11Parse(tables)
-	obs := c11Obs{Res: res, Err: msg, NS: []c11Entry{}, Calls: []c11Call{}}
+	tree, res, msg, passes := c11Parse(tables)
+	if passes == nil {
+		passes = []int{}
+	}
+	obs := c11Obs{Res: res, Err: msg, Pass: passes, NS: []c11Entry{}, Calls: []c11Call{}}
 	if res == "ok" {
 		func() {
 			defer func() {
@@ -796,6 +802,9 @@ func c11Min(a, b int) int {
 }
 
 func c11WriteLine(w *bufio.Writer, p c11Prog, obs c11Obs) {
+	if obs.Pass == nil {
+		obs.Pass = []int{}
+	}
 	b, _ := json.Marshal(map[string]interface{}{"id": p.ID, "toks": p.Raw, "obs": obs})
 	w.Write(b)
 	w.WriteByte('\n')
